@@ -1,0 +1,18 @@
+//go:build verif
+
+// Contracts for the deductive verifier in /verif (govc), helper "cpc2": callees of x/evm/keeper.NewEVM. This file contains
+// no code: with the build tag off it is not part of the package, with it on it adds nothing to the build.
+package types
+
+//@ import core "github.com/ethereum/go-ethereum/core"
+//@ import corevm "github.com/ethereum/go-ethereum/core/vm"
+//@ import ethparams "github.com/ethereum/go-ethereum/params"
+
+// tracer.go NewTracer: picks one of go-ethereum's loggers (eth/tracers/logger) by name; every branch returns a non-nil
+// logger object and touches no chain state. TRUSTED summary (the loggers are go-ethereum code). The access-list branch
+// dereferences msg.To(): it panics for a contract creation.
+//@ func NewTracer(tracer string, msg core.Message, cfg *ethparams.ChainConfig, height int64) corevm.EVMLogger
+//@   assumed
+//@   modifies nothing
+//@   ensures result != nil
+//@   panics any
